@@ -11,10 +11,10 @@ def check(report, tier, only=None):
     jobs = [
         kani.KaniJob('cm', 'c05_tie_break_converges',
                      'for all distinct 32-byte ids a,b and both arrival orders on both sides, A and B keep the same connection = the one dialed by the greater id',
-                     [FN, '<PeerId as PartialOrd>::lt'], {'unwind': 34, 'inputs': 'a,b: [u8;32] (all 2^512 pairs), a_x_first, b_x_first: bool'}),
+                     [FN, '<PeerId as PartialOrd>::lt'], {'unwind': 34, 'inputs': 'a,b: [u8;32] (all 2^512 pairs), a_x_first, b_x_first: bool'}, claim='C05-tie-break-decision'),
         kani.KaniJob('cm', 'c05_same_direction_replaces',
                      'two connections of the same direction: newer replaces older for all ids',
-                     [FN], {'unwind': 34, 'inputs': 'a,b: [u8;32], direction: bool'}),
+                     [FN], {'unwind': 34, 'inputs': 'a,b: [u8;32], direction: bool'}, claim='C05-tie-break-decision'),
         kani.KaniJob('cm', 'c05_peer_id_order_is_lexicographic',
                      'derived Ord/Eq on PeerId = big-endian unsigned order on the 32 bytes (validates the bvult model used by mirsym)',
                      ['<PeerId as PartialOrd>', '<PeerId as PartialEq>'], {'unwind': 34, 'inputs': 'a,b: [u8;32]'}),
@@ -77,9 +77,11 @@ def ob_compose(report):
             o.replay = write_replay('C05', 'compose', sample)
             return o
         ob.done([ex], 'held', '', sample, paths=len(res), extra_queries=1, extra_solver=t)
-    return guarded(report, 'compose_both_sides_through_add', 'the replace/keep decision of the real ActivePeersInner::add (MIR), instantiated at both peers and both arrival orders, '
-                   'keeps the same connection on both sides: the one dialed by the greater id (all 2^512 id pairs)',
-                   ['ActivePeersInner::add', 'ActivePeersInner::simultaneous_dial_tie_breaking'], {'inline_depth': 3}, body)
+    o = guarded(report, 'compose_both_sides_through_add', 'the replace/keep decision of the real ActivePeersInner::add (MIR), instantiated at both peers and both arrival orders, '
+                'keeps the same connection on both sides: the one dialed by the greater id (all 2^512 id pairs)',
+                ['ActivePeersInner::add', 'ActivePeersInner::simultaneous_dial_tie_breaking'], {'inline_depth': 3}, body)
+    o.claim = 'C05-tie-break-decision'        # the Kani harnesses decide the same statement on the tie-break function alone (when it is nameable for them)
+    return o
 
 
 def ob_late_exit(report):
